@@ -529,7 +529,18 @@ extern "C" int LLVMFuzzerTestOneInput(const uint8_t *data, size_t size) {
 	h.base_desc = "{" + w.desc + ",\"valid\":" + (w.valid ? "true" : "false") + ",\"buffers\":\"" + (h.exact ? "exact_heap_blocks" : "guard_bytes") + "\",\"history\":[\"start\"";
 	set_desc(h.base_desc);
 	bool alive = true;
-	if (c.byte() < 200) alive = do_init(h, "init"); else count("history_starts_before_init");
+	// an eighth of the cases (last case byte): the handle has been used before by a coder of *another* kind that supports every action
+	// (lzma_easy_encoder) and is handed to the initialiser under test without lzma_end() - nothing of the old coder may survive
+	const bool starts_with_init = c.byte() < 200;
+	if (starts_with_init && size && (data[size - 1] & 7) == 6) {
+		if (lzma_easy_encoder(&h.s, 0, LZMA_CHECK_CRC32) == LZMA_OK) {
+			static uint8_t ib[16] = {1, 2, 3, 4, 5, 6, 7, 8}; uint8_t ob[128]; h.s.next_in = ib; h.s.avail_in = (data[size - 1] >> 3) & 15; h.s.next_out = ob; h.s.avail_out = sizeof ob;
+			(void)lzma_code(&h.s, (data[size - 1] & 0x80) ? LZMA_SYNC_FLUSH : LZMA_RUN);
+			h.s.next_in = NULL; h.s.avail_in = 0; h.s.next_out = NULL; h.s.avail_out = 0;
+			h.log += ",\"handle previously used by lzma_easy_encoder\""; count("handle_previously_used_by_another_coder");
+		}
+	}
+	if (starts_with_init) alive = do_init(h, "init"); else count("history_starts_before_init");
 	unsigned nsteps = 1 + c.u(64);
 	for (unsigned i = 0; alive && i < nsteps && !c.empty(); ++i) alive = step(c, h);   // an exhausted case ends the drawn history (the completion phase follows)
 	if (alive) completion(h);
